@@ -490,6 +490,15 @@ class C17(Property):
         yield {'t': 'oto', 'ops': [['new', 'none', [], []], ['mkiter', [[1, 2], [3, 2]]], ['mkiter', [[5, 6]]],
                                    ['uniq', 'it', 0, []], ['upd', 0, 'f', 'it', 1, []], ['upd', 0, 'i', 'it', 0, []],
                                    ['ior', 1, 'f', 'it', 1]]}
+        for side in SIDES:
+            for taken in (0, 1, 3):
+                for first in (['upd', 0, side, 'it', 0], ['new', 'it', 0]):
+                    for again in (['upd', 0, 'f', 'it', 0], ['new', 'it', 0], ['upd', 0, 'i', 'it', 0]):
+                        yield {'t': 'm2m', 'ops': [['new', 'list', [[1, 3], [5, 2]]], ['mkiter', [[1, 2], [1, 3], [4, 3]]]]
+                               + [['next', 0]] * taken + [first, again, ['rem', 0, side, 1, 3]]}
+        for kind in ('dict', 'list', 'iter'):
+            yield {'t': 'm2m', 'ops': [['new', kind, [[1, 5], [2, 6], [1, 6]]], ['upd', 0, 'i', kind, [[6, 1], [5, 2], [6, 2]]],
+                                       ['new', 'reg', [0, 'i']], ['upd', 1, 'f', 'reg', [1, 'i']]]}
         # dict / OrderedDict arguments written with a key twice: the callee sees the key once (first position, last value)
         for kind in ('dict', 'odict', 'list', 'iter'):
             for o in ('upd', 'ior'):
@@ -713,10 +722,29 @@ class C17(Property):
         if ops[0][1] == 'dict':
             ops[0][2] = self.dedup_keys(ops[0][2])
         nregs = 1
+        nits = 0
+        use_its = rng.random() < 0.3
         for _ in range(nops):
             r, s = rng.randrange(nregs), rng.choice(SIDES)
             x = rng.random()
             k, v = rng.choice(ids), rng.choice(ids)
+            if use_its:
+                y = rng.random()
+                if y < 0.08 and nits < 4:
+                    ops.append(['mkiter', self.rpairs(rng, ids, 0, 5)])
+                    nits += 1
+                    continue
+                if nits and y < 0.12:
+                    ops.append(['next', rng.randrange(nits)])
+                    continue
+                if nits and y < 0.3:
+                    it = rng.randrange(nits)
+                    if rng.random() < 0.7 or nregs >= 4:
+                        ops.append(['upd', r, s, 'it', it])
+                    else:
+                        ops.append(['new', 'it', it])
+                        nregs += 1
+                    continue
             if x < 0.25:
                 ops.append(['add', r, s, k, v])
             elif x < 0.4:
@@ -732,7 +760,8 @@ class C17(Property):
                     ops.append(['upd', r, s, 'reg', [rng.randrange(nregs), rng.choice(SIDES)]])
                 else:
                     ps = self.rpairs(rng, ids)
-                    ops.append(['upd', r, s, kind, self.dedup_keys(ps) if kind == 'dict' else ps])
+                    # a mapping written with a key twice holds the key once, with the last value
+                    ops.append(['upd', r, s, kind, self.dedup_keys(ps) if kind == 'dict' and rng.random() < 0.5 else ps])
             elif x < 0.88:
                 ops.append(['rep', r, s, k, v])
             elif nregs < 4:
@@ -891,10 +920,13 @@ class C17(Property):
             for op in case['ops']:
                 o = op[0]
                 if o == 'new':
-                    if op[1] == 'reg':
-                        toks.append('NR/%d/%s' % (op[2][0], op[2][1]))
-                    else:
-                        toks.append('N/%s' % self._ps(self._flat(op[1], op[2] if op[1] != 'none' else [])))
+                    # arguments travel raw (kind + pairs as written): Args.lean walks a mapping by keys, a list /
+                    # iterator in one pass, and keeps the held iterators
+                    toks.append('N/%s' % self._argtok(op[1], op[2]))
+                elif o == 'mkiter':
+                    toks.append('MI/' + self._ps(op[1]))
+                elif o == 'next':
+                    toks.append('NX/%d' % op[1])
                 elif o == 'add':
                     toks.append('A/%d/%s/%d/%d' % tuple(op[1:]))
                 elif o == 'rem':
@@ -904,10 +936,7 @@ class C17(Property):
                 elif o == 'del':
                     toks.append('D/%d/%s/%d' % tuple(op[1:]))
                 elif o == 'upd':
-                    if op[3] == 'reg':
-                        toks.append('UR/%d/%s/%d/%s' % (op[1], op[2], op[4][0], op[4][1]))
-                    else:
-                        toks.append('U/%d/%s/%s' % (op[1], op[2], self._ps(self._flat(op[3], op[4]))))
+                    toks.append('U/%d/%s/%s' % (op[1], op[2], self._argtok(op[3], op[4])))
                 elif o == 'rep':
                     toks.append('P/%d/%s/%d/%d' % tuple(op[1:]))
                 else:
@@ -1077,16 +1106,23 @@ class C17(Property):
 
         def held(x):
             return [x, x.inv]
+        its = []      # one-shot iterators the "caller" holds on to
         for n, op in enumerate(case['ops']):
             o, rec = op[0], {'ret': '-'}
             try:
-                if o == 'new':
+                if o == 'mkiter':
+                    its.append(one_shot(mkpairs(op[1], n)))
+                elif o == 'next':
+                    next(its[op[1]], None)
+                elif o == 'new':
                     new = None
                     try:
                         if op[1] == 'none':
                             new = ManyToMany()
                         elif op[1] == 'reg':
                             new = ManyToMany(self._side(regs[op[2][0]], op[2][1]))
+                        elif op[1] == 'it':
+                            new = ManyToMany(its[op[2]])
                         else:
                             new = ManyToMany(self._arg(op[1], op[2], n))
                     finally:
@@ -1103,7 +1139,8 @@ class C17(Property):
                     elif o == 'del':
                         del x[mk(op[3], n)]
                     elif o == 'upd':
-                        x.update(self._side(regs[op[4][0]], op[4][1]) if op[3] == 'reg' else self._arg(op[3], op[4], n))
+                        x.update(self._side(regs[op[4][0]], op[4][1]) if op[3] == 'reg' else
+                                 its[op[4]] if op[3] == 'it' else self._arg(op[3], op[4], n))
                     elif o == 'rep':
                         x.replace(mk(op[3], n), mk(op[4], n + 1))
             except CaseTimeout:
@@ -1605,12 +1642,25 @@ class C17(Property):
 
     def oracle_m2m(self, case, obs):
         refs = []      # per instance: set of (k, v) as seen from the forward side
+        iters = []     # per held one-shot iterator: the pairs it still has to yield
         for n, op in enumerate(case['ops']):
             if n >= len(obs):
                 return Failure('missing', 'no observation for %r' % (op,))
             rec, o = obs[n], op[0]
             exp_exc, tgt = None, None
-            if o == 'new':
+            if o == 'new' and op[1] == 'it':
+                left, iters[op[2]] = iters[op[2]], []
+                op = ['new', 'list', left]
+                self._nt = True
+            elif o == 'upd' and op[3] == 'it':
+                left, iters[op[4]] = iters[op[4]], []
+                op = op[:3] + ['list', left]
+                self._nt = True
+            if o == 'mkiter':
+                iters.append([list(pr) for pr in op[1]])
+            elif o == 'next':
+                iters[op[1]] = iters[op[1]][1:]
+            elif o == 'new':
                 if op[1] == 'reg':
                     src = refs[op[2][0]]
                     refs.append(set(src) if op[2][1] == 'f' else {(b, a) for a, b in src})
